@@ -120,11 +120,9 @@ pub fn get_evm_network_from_env() -> Result<Network, Error> {
         Ok(Network::ArbitrumSepolia)
     } else if let Ok(evm_vars) = evm_vars {
         info!("Using custom EVM network from environment variables");
-        Ok(Network::Custom(CustomNetwork::new(
-            &evm_vars[0],
-            &evm_vars[1],
-            &evm_vars[2],
-        )))
+        CustomNetwork::try_new(&evm_vars[0], &evm_vars[1], &evm_vars[2])
+            .map(Network::Custom)
+            .map_err(Error::FailedToGetEvmNetwork)
     } else if use_local_evm {
         local_evm_network_from_csv()
     } else {
@@ -152,9 +150,11 @@ fn local_evm_network_from_csv() -> Result<Network, Error> {
     })?;
     let parts: Vec<&str> = csv.split(',').collect();
     match parts.as_slice() {
-        [rpc_url, payment_token_address, chunk_payments_address, _] => Ok(Network::Custom(
-            CustomNetwork::new(rpc_url, payment_token_address, chunk_payments_address),
-        )),
+        [rpc_url, payment_token_address, chunk_payments_address, _] => {
+            CustomNetwork::try_new(rpc_url, payment_token_address, chunk_payments_address)
+                .map(Network::Custom)
+                .map_err(Error::FailedToGetEvmNetwork)
+        }
         _ => {
             error!("Invalid data in evm testnet CSV file");
             Err(Error::FailedToGetEvmNetwork(
